@@ -1,8 +1,8 @@
+\* Negative configuration: the seeded fault "storefirst" of Persist.tla must violate RefusedChangesNothing.
 SPECIFICATION Spec
 CONSTANTS
     Deep = FALSE
     Bug = "storefirst"
     DoEmit = FALSE
-INVARIANTS WriteThrough ReportsRunning TypeOK
-PROPERTIES RefusedChangesNothing RestartRestores CrashAtomic AcceptedEverywhere
+PROPERTIES RefusedChangesNothing
 VIEW View
